@@ -17,8 +17,8 @@ def main():
             level_note=c['note'], technique=c['technique']))
     m = dict(version=1, setup_cmd='./check --setup',
         hooks=dict(guard='rws_verif', enable='RUSTFLAGS="--cfg rws_verif" (set in harness/.cargo/config.toml; the harness compiles /repo/src in place through #[path] modules)',
-                   baseline_off_cmd='cd /repo && cargo test --workspace --no-fail-fast --offline',
-                   source_commits=json.load(open(os.path.join(V, 'hooks.json')))['source_commits'] if os.path.exists(os.path.join(V, 'hooks.json')) else [],
+                   baseline_off_cmd='cd /repo && (cargo nextest run --workspace --no-fail-fast --tool-config-file pb:/w/lib/nextest.toml --profile pb --test-threads 8 --offline || cargo test --workspace --no-fail-fast --offline)',
+                   source_commits=[c['commit'] for c in json.load(open(os.path.join(V, 'hooks.json')))['source_commits']] if os.path.exists(os.path.join(V, 'hooks.json')) else [],
                    add_only=True),
         engines=[dict(name='lean4-model+correspondence', path='/verif/check',
                       serves_properties=sorted(CLAIMED), kind_free_text='Lean 4 model + kernel-checked theorems (lean/), table translator (translator/), Rust harness compiling /repo/src in place (harness/), differential correspondence and property oracles (props/, vlib/)')],
